@@ -18,6 +18,9 @@ CHECKS = {
  "C13": ("exploration", "online lifecycle monitor (per-pipe event automaton in the PipeEventHook + recording ProtocolBase wrapper + process-wide live-id set + allocator census hook) with stuck detector for carry-on",
    "PRNG scripts over the virtual transport (1-4 sockets at once, listener and dialer side, 12 protocols each wrapped in a recording ProtocolBase) and over all six real transports place per-connection actions (peer drop, Pipe.Close, hook close during Attaching/Attached, protocol refusal, second PAIR peer) with library yield points perturbing the schedule; an online monitor checks each pipe's event sequence, add/remove pairing, id range/uniqueness until Detached returned, id release at the end, and that a fresh connection attaches after every rejection; read-only pipe options are compared with the actual connection per transport. Exploration: the property quantifies over schedules and fault sequences.",
    "Trusted: the hook/wrapper monitor (its state is updated under its own mutex inside the very callbacks it observes), vt transport, allocator accessor hook. Only executed interleavings are decided.", "3/C13"),
+ "C12": ("fault_enumeration", "error-catalogue fault enumeration with follow-up calls under the stuck detector + reflect/unsafe mutex probe (TryLock of every reachable lock at quiescence)",
+   "Every API error outcome in the catalogue (listener: address in use, Listen twice, closed, unusable address, TLS without config/certificate, broken raw peers; dialer: refused, async refused, Dial twice, closed, SP handshake failure, TLS verification failure; hook rejections; per protocol: bad options, timeouts, no peers, best effort, bad addresses, context errors, closed, zero queue length with traffic) is provoked on every transport, then every other call on the same object must return (stuck detector), the cause is corrected and the call retried on the same object, a good peer must connect and exchange, and a mutex probe checks that every lock reachable from the objects can be taken. Fault enumeration: the catalogue is a finite list that is enumerated completely.",
+   "Trusted: the catalogue covers the error outcomes named in the property; the mutex probe's object-graph walk (restricted to mangos struct types). 'Every path from a lock acquisition to a return' is decided only for executed paths.", "3/C12"),
 }
 
 NOT_YET = {}
